@@ -54,9 +54,9 @@ try:
         r = subprocess.run(["patch", "-p1", "-l", "-s", "-i", pf], cwd=dst, stdout=subprocess.PIPE, stderr=subprocess.STDOUT, text=True)
     if r.returncode == 0:
         # keep the patch in the form that applies to the current /repo
-        d = subprocess.run(["git", "diff", "--", "src"], cwd=dst, stdout=subprocess.PIPE, text=True).stdout
+        d = subprocess.run(["git", "diff", "--", "src"], cwd=dst, stdout=subprocess.PIPE).stdout     # bytes: keep CRs
         if d.strip():
-            open(pf, "w", newline="").write(d)
+            open(pf, "wb").write(d)
     res["patch_applies"] = r.returncode == 0
     if r.returncode:
         print("patch failed:", r.stdout)
